@@ -82,24 +82,18 @@ impl VisitMut for BlockTransformVisitor<'_> {
         if self.transform_status.status == Status::Modified {
             match node {
                 Program::Script(script) => {
-                    let mut index = 0;
-                    if let Some(stmt) = script.body.first() {
-                        if stmt.is_use_strict() {
-                            index = 1;
-                        }
-                    }
+                    let index = get_variable_insertion_index(&script.body);
 
                     for prefix_statement in self.config.file_prefix_code.iter().rev() {
                         script.body.insert(index, prefix_statement.clone());
                     }
                 }
                 Program::Module(module) => {
-                    let mut index = 0;
-                    if let Some(ModuleItem::Stmt(stmt)) = module.body.first() {
-                        if stmt.is_use_strict() {
-                            index = 1;
-                        }
-                    }
+                    let index = module
+                        .body
+                        .iter()
+                        .take_while(|item| matches!(item, ModuleItem::Stmt(stmt) if is_directive(stmt)))
+                        .count();
 
                     for prefix_statement in self.config.file_prefix_code.iter().rev() {
                         module
@@ -147,10 +141,15 @@ fn insert_variable_declaration(ident_expressions: &[Ident], expr: &mut BlockStmt
     }
 }
 
+// injected code must be placed after the whole directive prologue ('use strict' and any other directive),
+// otherwise the directives that follow it would become plain expression statements
 fn get_variable_insertion_index(stmts: &[Stmt]) -> usize {
-    if !stmts.is_empty() && stmts[0].is_use_strict() {
-        1
-    } else {
-        0
+    stmts.iter().take_while(|stmt| is_directive(stmt)).count()
+}
+
+fn is_directive(stmt: &Stmt) -> bool {
+    match stmt {
+        Stmt::Expr(expr_stmt) => matches!(*expr_stmt.expr, Expr::Lit(Lit::Str(_))),
+        _ => false,
     }
 }
